@@ -1201,3 +1201,29 @@ K("_nsi_cross_local_clustering", "core", props=("C11", "C02", "C04", "C20"),
                    "node_v==nodes1[v] and node_p==nodes2[p] and weight_p==node_weights[nodes2[p]]", "A[node_v,node_p]!=0",
                    f"m=={_M} and n=={_Nn}"]},
   modifies=["nsi_cc"], checks=("bounds", "narrow"))
+
+
+# ---- twin-surrogate walk over the recurrence-plot twins (C15, C20): every visited state index stays inside [0,N), every
+# row written is a row of the embedding, every index taken from a twin list is inside that list
+K("_twin_surrogates_r", "timeseries", props=("C15", "C20"), lists=("twins",),
+  requires=["N>=0", "n_surrogates>=0", "dim>=0", "shape(embedding,0)==N", "shape(embedding,1)==dim", "len(twins)>=N",
+            "all(0<=item(twins,a,b) and item(twins,a,b)<N for a in range(N) for b in range(ilen(twins,a)))",
+            "all(ilen(twins,a)<=N for a in range(N))", "N<=%d" % (INT32 - 2)],
+  ensures=["shape(result,0)==n_surrogates and shape(result,1)==N and shape(result,2)==dim"],
+  loops={"i": ["shape(surrogates,0)==n_surrogates and shape(surrogates,1)==N and shape(surrogates,2)==dim"],
+         "i.while": ["N==0 or (0<=k and k<N)", "0<=j", "shape(surrogates,0)==n_surrogates and shape(surrogates,1)==N and shape(surrogates,2)==dim"],
+         "i.while.while": ["0<=j and j<N", "k>=N", "shape(surrogates,0)==n_surrogates and shape(surrogates,1)==N and shape(surrogates,2)==dim"]},
+  asserts={"surrogates[i, j, :] = embedding[k, :]": ["0<=k and k<N and 0<=j and j<N and 0<=i and i<n_surrogates"]},
+  checks=("bounds", "narrow", "divzero"))
+K("_twin_surrogates_s", "timeseries", props=("C15", "C20"), lists3=("twins",),
+  requires=["N>=0", "n_surrogates>=0", "shape(original_data,0)>=n_surrogates", "shape(original_data,1)==N", "len(twins)>=n_surrogates",
+            "all(len2(twins,i)>=N for i in range(n_surrogates))",
+            "all(0<=item3(twins,i,a,b) and item3(twins,i,a,b)<N and ilen3(twins,i,a)<=N for i in range(n_surrogates) for a in range(N) "
+            "for b in range(ilen3(twins,i,a)))",
+            "all(ilen3(twins,i,a)<=N for i in range(n_surrogates) for a in range(N))", "N<=%d" % (INT32 - 2)],
+  ensures=["shape(result,0)==n_surrogates and shape(result,1)==N"],
+  loops={"i": ["shape(surrogates,0)==n_surrogates and shape(surrogates,1)==N"],
+         "i.while": ["N==0 or (0<=k and k<N)", "0<=j", "shape(surrogates,0)==n_surrogates and shape(surrogates,1)==N"],
+         "i.while.while": ["0<=j and j<N", "k>=N", "shape(surrogates,0)==n_surrogates and shape(surrogates,1)==N"]},
+  asserts={"store:surrogates": ["0<=k and k<N and 0<=j and j<N and 0<=i and i<n_surrogates"]},
+  checks=("bounds", "narrow", "divzero"))
